@@ -132,6 +132,52 @@ def run(ctx):
         if bad is not None:
             bad["pvalues"] = [str(x) for x in v]
             ctx.violation("oracle", bad, site="adjust_p")
+    # every vector length 1..N (not a sample of lengths): a method must not fail or go wrong for particular numbers of hypotheses
+    def float_oracle(pf_, m_):
+        n_ = len(pf_)
+        if m_ == "bonferroni":
+            return np.minimum(1.0, n_ * pf_)
+        o_ = np.argsort(pf_, kind="stable"); s_ = pf_[o_]; out_ = np.empty(n_)
+        if m_ == "holm-bonferroni":
+            out_[o_] = np.maximum.accumulate(np.minimum(1.0, (n_ - np.arange(n_)) * s_))
+        else:
+            out_[o_] = np.minimum.accumulate(np.minimum(1.0, n_ * s_ / np.arange(1, n_ + 1))[::-1])[::-1]
+        return out_
+    NLEN = ctx.n(700, 3200)
+    for n_ in range(1, NLEN + 1):
+        kindv = ctx.rng.choice(["spread", "small", "ties"])
+        if kindv == "spread":
+            pf_ = np.array([ctx.rng.random() for _ in range(n_)])
+        elif kindv == "small":
+            pf_ = np.array([ctx.rng.random() / n_ for _ in range(n_)])
+        else:
+            pf_ = np.array([ctx.rng.randint(1, 7) / 64 for _ in range(n_)])
+        for m in (METHODS if n_ <= 300 or ctx.thorough() else [ctx.rng.choice(METHODS), "benjamini-hochberg"]):
+            r = guarded(npc.adjust_p, pf_.copy(), m)
+            want = float_oracle(pf_, m)
+            if r[0] != "ok" or np.shape(r[1]) != (n_,) or not np.allclose(np.array(r[1], dtype=float), want, rtol=1e-12, atol=0):
+                ctx.violation("oracle", {"method": m, "n": n_, "pvalues": pf_[:8].tolist(), "issue": f"adjust_p fails or deviates from the definition for vectors of length {n_}",
+                                         "returned": str(r[1:])[:200], "expected_head": want[:8].tolist()}, site="adjust_p"); break
+        ctx.count("every-length-1..N")
+    ctx.case(("every-length", NLEN), True)
+    # vectors the caller cannot (and the function need not) write to: read-only arrays, views of immutable buffers, broadcast rows
+    for _ in range(ctx.n(30, 300)):
+        n_ = ctx.rng.randint(1, 9); m = ctx.rng.choice(METHODS)
+        base_ = np.array([ctx.rng.randint(1, 99) / 100 for _ in range(n_)])
+        kind_ = ctx.rng.choice(["writeable=False", "frombuffer", "broadcast_to", "strided-readonly"])
+        if kind_ == "writeable=False":
+            ro = base_.copy(); ro.flags.writeable = False
+        elif kind_ == "frombuffer":
+            ro = np.frombuffer(base_.tobytes(), dtype=float)
+        elif kind_ == "broadcast_to":
+            ro = np.broadcast_to(base_, (3, n_))[1]
+        else:
+            big_ = np.repeat(base_, 2); big_.flags.writeable = False; ro = big_[::2]
+        r = guarded(npc.adjust_p, ro, m); rf = guarded(npc.adjust_p, base_.copy(), m)
+        ctx.case(("read-only", kind_, m, tuple(base_)), True); ctx.count("read-only-input-" + kind_)
+        if r[0] != "ok" or rf[0] != "ok" or not np.array_equal(np.array(r[1]), np.array(rf[1])) or not np.array_equal(np.array(ro), base_):
+            ctx.violation("oracle", {"method": m, "pvalues": base_.tolist(), "input_kind": kind_, "issue": "adjust_p fails (or differs) on a legal vector held in a read-only array",
+                                     "returned": str(r[1:])[:200], "on_a_writeable_copy": str(rf[1:])[:120]}, site="adjust_p")
     # a buffer refilled in place with new p-values between two calls: second result as on a fresh array
     for _ in range(ctx.n(40, 400)):
         n_ = ctx.rng.randint(1, 8); m = ctx.rng.choice(METHODS)
